@@ -491,6 +491,41 @@ func rulesC19(c *Ctx) {
 					}
 				}
 				ok = nilTest && onlyKnown
+				// ... and the normalised value is the one returned: the copy that was patched is assigned back to the result
+				// variable on every path to the return (or the patch is applied to the result variable itself)
+				root := ast.Unparen(s.X)
+				for {
+					if sel2, isSel := root.(*ast.SelectorExpr); isSel {
+						root = ast.Unparen(sel2.X)
+						continue
+					}
+					break
+				}
+				base := f.ObjOf(root)
+				var resVar types.Object
+				for _, r := range f.Returns() {
+					if len(r.Results) == 2 {
+						if o := f.ObjOf(r.Results[0]); o != nil {
+							resVar = o
+						}
+					}
+				}
+				back := base != nil && base == resVar
+				if !back && base != nil && resVar != nil {
+					v := g.VertexOf(w.Stmt)
+					back, _ = g.MustPass(v, g.Exits, func(u int) bool {
+						as, isAs := g.Node(u).(*ast.AssignStmt)
+						if !isAs || len(as.Lhs) != 1 || len(as.Rhs) != 1 || f.ObjOf(as.Lhs[0]) != resVar {
+							return false
+						}
+						rhs := ast.Unparen(as.Rhs[0])
+						if u, isU := rhs.(*ast.UnaryExpr); isU && u.Op == token.AND {
+							rhs = ast.Unparen(u.X)
+						}
+						return f.ObjOf(rhs) == base
+					})
+				}
+				c.Check(back, p.fn+":normalised-copy-is-returned", f, w.Stmt, "the value whose nil %s was replaced is the one handed back (a patched copy that is then dropped sends null after all)", p.field)
 			}
 			c.Check(ok, p.fn+":nil-"+p.field+"-normalised", f, nil, "%s replaces a nil %s by an empty array exactly when it is nil (and the result is not an input-required one): a wider or different condition lets \"%s\":null onto the wire", p.fn, p.field, strings.ToLower(p.field))
 		}
